@@ -95,6 +95,29 @@ pub fn parse_pristine(b: &[u8]) -> Result<Vec<Txn>, String> {
     Ok(out)
 }
 
+/// The bytes after the last newline-terminated separator line are a non-empty sequence of whole
+/// CRC-valid lines (the last may lack its newline) each of which is an item of the pristine
+/// file.  Independent of `mani`.
+pub fn unterminated_tail_of_pristine_lines(b: &[u8], items: &BTreeSet<String>) -> bool {
+    let mut lines: Vec<&[u8]> = b.split(|c| *c == b'\n').collect();
+    if lines.last().map(|l| l.is_empty()).unwrap_or(false) {
+        lines.pop();
+    }
+    // a separator without its newline at the very end is not a separator line for this purpose
+    let terminated = |i: usize| i + 1 < lines.len() || b.last() == Some(&b'\n');
+    let start = lines.iter().enumerate().rposition(|(i, l)| *l == b"--------" && terminated(i)).map(|i| i + 1).unwrap_or(0);
+    let tail = &lines[start..];
+    !tail.is_empty()
+        && tail.iter().all(|l| {
+            let Ok(line) = std::str::from_utf8(l) else { return false };
+            if line.len() < 9 || !line.is_char_boundary(8) {
+                return false;
+            }
+            let Ok(want) = u32::from_str_radix(&line[..8], 16) else { return false };
+            crc32c::crc32c(&line.as_bytes()[8..]) == want && items.contains(&line[8..])
+        })
+}
+
 pub type State = (BTreeSet<String>, BTreeMap<char, String>);
 
 pub fn fold(txns: &[Txn]) -> State {
@@ -291,7 +314,7 @@ impl Target for ManiDamage {
         let got = observe(&damaged, &p.dir.join("d"), 4 * p.edits.len() + 8);
         let peak = alloc::disarm();
         let kinds: Vec<&str> = applied.iter().filter(|a| a.effective).map(|a| a.kind).collect();
-        let (labels, failure) = judge(&p.edits, &p.items, &got, &kinds, &what, true);
+        let (labels, failure) = judge(&p.edits, &p.items, &damaged, &got, &kinds, &what, true);
         for l in labels {
             o.label(l);
         }
@@ -308,7 +331,7 @@ impl Target for ManiDamage {
 /// `edits` / `items`: what the pristine version of the examined fragment holds.  `open_reads_it`:
 /// the examined fragment is the live MANIFEST, so `Manifest::open` must agree with its iteration
 /// (for a backup fragment the caller judges `open` itself).
-pub fn judge(edits: &[Txn], items: &BTreeSet<String>, got: &ManiObs, kinds: &[&str], what: &str, open_reads_it: bool) -> (Vec<String>, Option<Failure>) {
+pub fn judge(edits: &[Txn], items: &BTreeSet<String>, damaged: &[u8], got: &ManiObs, kinds: &[&str], what: &str, open_reads_it: bool) -> (Vec<String>, Option<Failure>) {
     struct P<'a> {
         edits: &'a [Txn],
         items: &'a BTreeSet<String>,
@@ -342,7 +365,12 @@ pub fn judge(edits: &[Txn], items: &BTreeSet<String>, got: &ManiObs, kinds: &[&s
             fail("mani:different-data", format!("edit #{common} read from the damaged manifest is {:?} but the pristine manifest holds {:?} there", extra[0], p.edits.get(common)));
         }
     }
-    if !iter_failed && common < p.edits.len() && !kinds.contains(&"truncate") && !copied {
+    // a copied run that replaces the LAST separator by a whole CRC-valid line of the same file
+    // (e.g. the 9 bytes `<crc>+` of an added empty string) leaves a file that ends in an
+    // unterminated transaction of well-formed lines: indistinguishable from a transaction whose
+    // separator was never written, which the reader documents as a clean end
+    let lookalike = extra.is_empty() && kinds.contains(&"run-copy") && unterminated_tail_of_pristine_lines(damaged, p.items);
+    if !iter_failed && common < p.edits.len() && !kinds.contains(&"truncate") && !copied && !lookalike {
         fail("mani:silently-short", format!("iteration ended WITHOUT error after {common} of {} edits although nothing was truncated", p.edits.len()));
     }
     // Manifest::verify reads every fragment with the same reader: it must report at least one
@@ -383,6 +411,7 @@ pub fn judge(edits: &[Txn], items: &BTreeSet<String>, got: &ManiObs, kinds: &[&s
     }
     labels.push(
         match (iter_failed, common, replay) {
+            (false, c, _) if lookalike && c < p.edits.len() => "outcome:unterminated-tail(copied-run-replaced-a-separator-by-a-wellformed-line)",
             (_, _, true) if copied => "outcome:replayed-whole-lines(copied-run-is-wellformed)",
             (_, _, true) => "outcome:replayed-whole-lines(appended-slice-is-wellformed)",
             (true, 0, _) => "outcome:detected-before-any-data",
